@@ -143,7 +143,7 @@ def units(tier):
     max_extra = 1 if tier == "quick" else 2
     delays = [0, 1, 2, 3]
     out = []
-    for L in (0, 30, 4.1, 8.2):     # incl. latencies that are not representable exactly in binary
+    for L in (0, 30, 4.1, 8.2, 0.1):     # incl. latencies that are not representable exactly in binary, and a sub-second one
         npos = len(extra_positions(grid(nbars), L))
         for k in range(max_extra + 1):
             for extras in itertools.combinations(range(npos), k):
@@ -233,7 +233,7 @@ def run(tier, **kw):
     rep.set("distinct_nontrivial", len(nontrivial))
     rep.set("exhaustive", True)
     rep.set("rule", "one evaluation = one complete episode; enumerated: 5-bar stream (2 contracts, every bar a distinct price, spread 2) x latency "
-                    "{0, 30s, 4.1s, 8.2s} x every subset of <= 1 (quick) / <= 2 (thorough) extra quotes over {t+1s, t+L, t+L+0.4s, t'-1s} of every consecutive "
+                    "{0, 30s, 4.1s, 8.2s, 0.1s} x every subset of <= 1 (quick) / <= 2 (thorough) extra quotes over {t+1s, t+L, t+L+0.4s, t'-1s} of every consecutive "
                     "pair x delay {0,1,2,3} x {Box, Discrete with zero first allocation, Discrete with non-zero first allocation, Discrete whose flat allocation is not action 0} x all 3^4 "
                     "action sequences over 3 pairwise-distinct actions, plus the latency > 0 configurations with price-free events added to the transmitter after the environment was built, configurations in which every quote of one contract is followed by a revision with the identical stamp (8 bars, 24+ events), and configurations whose transmitter was first used to build an environment with another latency (same environment reused across sequences via reset); non-trivial = "
                     "distinct (allocations executed, trade prices) outcome with delay > 0 or an extra quote")
